@@ -23,6 +23,12 @@ def run():
         if replay:
             raise MachineryError("replay files of %s are descriptive; rerun the check" % prop)
         return m.main_met() if prop == "C16" else m.main_single()
+    if prop == "C15":
+        from . import check_cache as m
+
+        if replay:
+            raise MachineryError("replay files of C15 are descriptive; rerun the check")
+        return m.main()
     raise MachineryError("no check registered for " + prop)
 
 
